@@ -13,7 +13,26 @@ def far_points(rng, w, n):
     ctx = t['ctx']
     base = t['base']
     pts = []
-    for _ in range(n):
+    unit = ctx.unit()
+
+    def clear_of_every_feature(sx, sy):
+        # farther from every feature's own centre than three times its footprint size plus (line features) its length and thickness
+        for ft in t['features']:
+            cx, cy = ft['centre']
+            reach = 3.0 * ft['size'] + ((ft.get('length', 0.0) + ft.get('thickness', 0.0)) / unit if ft['type'] in wg.LINE else 0.0)
+            if ctx.sph:
+                a1, a2 = math.radians(sy), math.radians(cy)
+                dl = math.radians(sx - cx)
+                cosd = math.sin(a1) * math.sin(a2) + math.cos(a1) * math.cos(a2) * math.cos(dl)
+                dist = math.degrees(math.acos(max(-1.0, min(1.0, cosd))))
+                if dist < reach + 5.0:
+                    return False
+            elif math.hypot(sx - cx, sy - cy) < reach + 1e5:
+                return False
+        return True
+    tries = 0
+    while len(pts) < n and tries < 40 * n:
+        tries += 1
         if ctx.sph:
             sx = ((base[0] + 180.0 + rng.uniform(-70, 70) + 180.0) % 360.0) - 180.0
             sy = rng.uniform(-80, 80)
@@ -22,6 +41,8 @@ def far_points(rng, w, n):
             r = rng.uniform(25, 60) * max(base[2], 1e6)
             sx = base[0] + r * math.cos(a)
             sy = base[1] + r * math.sin(a)
+        if not clear_of_every_feature(sx, sy):
+            continue
         d = rng.choice([0.0, -rng.uniform(0, 1e5), 1.0e6, rng.uniform(0, 1e6), rng.uniform(0, 3e5), 1e-9])
         pts.append((sx, sy, d))
     return pts
